@@ -139,6 +139,11 @@ def main (args : List String) : IO UInt32 := do
     replayLoop stdin CdsVerif.Algo.DHP.Replay.modelR (fun cfg => CdsVerif.Algo.DHP.Replay.initCfg cfg)
       CdsVerif.Algo.DHP.Replay.relevant CdsVerif.Algo.DHP.Replay.safeB none
     return 0
+  | ["replay", "dhp_unrepaired"] =>
+    -- the same machine with retired_array::extend() as it stood before its repair (finding; see Algo/DHP/Model.lean `modelUnrepaired`)
+    replayLoop stdin CdsVerif.Algo.DHP.Replay.modelRU (fun cfg => CdsVerif.Algo.DHP.Replay.initCfg cfg)
+      CdsVerif.Algo.DHP.Replay.relevant CdsVerif.Algo.DHP.Replay.safeB none
+    return 0
   | ["replay", "segq"] =>
     -- harness variant `i_hp_named` of the `segmented` client, trace rewritten by tools/segq_pre.py (permutations folded into the
     -- CALL lines); initial state: header words `qf=` and `warm=` (the warm-up is run on the machine)
